@@ -93,12 +93,18 @@ def cases(tier, seed):
                             out.append({"kind": "model", "T": T, "rs": rs, "model": model, "j": j, "k": k, "d": list(d)})
                 out.append({"kind": "brute", "T": T, "rs": rs, "model": model, "seed": seed})
                 if model == "ZNCC" and K > 1:
+                    # (ZNCC only: the un-normalised PCC scores of differently masked candidates are not comparable)
+                    # a mask that is not rotation-invariant: every candidate needs the mask turned by its own rotation
+                    for j in range(T):
+                        for k in range(K):
+                            out.append({"kind": "model", "T": T, "rs": rs, "model": model, "j": j, "k": k, "d": list(DISP[1]), "mask": "bar"})
+                if model == "ZNCC" and K > 1:
                     # density maps on a constant background (not zero-mean): what is swept into the corners of a rotated
                     # candidate template must be background, not zero
                     for j in range(T):
                         for k in range(K):
                             out.append({"kind": "model", "T": T, "rs": rs, "model": model, "j": j, "k": k, "d": list(DISP[1]), "toffset": 3.0})
-            for entry in ("align(stack)", "align_multi_templates", "group(list)", "group(mapping)"):
+            for entry in ("align(stack)", "align_multi_templates", "group(list)", "group(mapping)", "align_multi_templates[with_params]", "align(stack)[with_params]"):
                 if T == 1 and entry == "group(mapping)":
                     continue
                 for model in ("ZNCC", "PCC"):
@@ -130,8 +136,16 @@ def _templates(T, offset=0.0):
 _CACHE = {}
 
 
-def _model(T, rs, model, offset=0.0):
-    key = (T, rs, model, offset)
+def _bar_mask():
+    """soft mask that is not invariant under any searched rotation (different half-widths on the three axes)"""
+    c = data.box_coords(SHAPE)
+    w = np.array([5.0, 3.6, 2.6])  # tight on two axes: a mask turned by the wrong rotation cuts into the particle
+    r = np.max(np.abs(c) / w, axis=-1)
+    return (1.0 / (1.0 + np.exp((r - 1.0) * 6.0))).astype(np.float32)
+
+
+def _model(T, rs, model, offset=0.0, mask=None):
+    key = (T, rs, model, offset, mask)
     if key not in _CACHE:
         if len(_CACHE) > 3:
             _CACHE.clear()
@@ -139,6 +153,8 @@ def _model(T, rs, model, offset=0.0):
         kw = {}
         if ROTSETS[rs] is not None:
             kw["rotations"] = _rotations_arg(rs)
+        if mask == "bar":
+            kw["mask"] = _bar_mask()
         _CACHE[key] = _cls(model)(tm if T > 1 else tm[0], **kw)
     return _CACHE[key]
 
@@ -169,7 +185,7 @@ def run_case(case):
 
     T, rs, mname, j, k = case["T"], case["rs"], case["model"], case["j"], case["k"]
     d = np.asarray(case["d"], dtype=np.float64)
-    model = _model(T, rs, mname, case.get("toffset", 0.0))
+    model = _model(T, rs, mname, case.get("toffset", 0.0), case.get("mask"))
     K = _K(rs)
     quats = np.asarray(model.quaternions)
     assert quats.shape[0] == K, (quats.shape, K)
@@ -188,7 +204,8 @@ def run_case(case):
     jj = lab % T if K > 1 else lab
     if jj != j or lab >= T * K or (K > 1 and lab // T != k):
         viol.append((sig("Model.align", "label"), f"planted (template {j}, rotation {k}) of T={T}, K={K}; label {lab} decodes to template {lab % T}, rotation {lab // T}"))
-    if np.abs(np.asarray(res.shift) - d).max() > (0.5 if mname == "FSC" else 0.15):
+    shift_tol = 0.5 if (mname == "FSC" or case.get("mask")) else 0.15  # a soft mask may truncate the displaced density (as in C04)
+    if np.abs(np.asarray(res.shift) - d).max() > shift_tol:
         viol.append((sig("Model.align", "shift"), f"planted d={d.tolist()}, reported {np.round(res.shift, 3).tolist()} (j={j}, k={k}, T={T}, K={K})"))
     if T == 1 or mname != "FSC":
         fitted, r2 = model.fit(img, MAXSHIFT)
@@ -197,7 +214,7 @@ def run_case(case):
             viol.append((sig("Model.fit", "rotation"), f"planted (template {j}, rotation {k}) of T={T}, K={K}; fit reported rotation index {kk2}"))
         if T > 1 and int(r2.label) % T != j:
             viol.append((sig("Model.fit", "label"), f"planted (template {j}, rotation {k}) of T={T}, K={K}; fit reported label {int(r2.label)}"))
-        if np.abs(np.asarray(r2.shift) - d).max() > (0.5 if mname == "FSC" else 0.15):
+        if np.abs(np.asarray(r2.shift) - d).max() > shift_tol:
             viol.append((sig("Model.fit", "shift"), f"planted d={d.tolist()}, fit reported {np.round(r2.shift, 3).tolist()}"))
         # the fitted image must be superimposed on the template
         t = (model.template if T == 1 else model.template[j]).astype(np.float64)
@@ -304,7 +321,14 @@ def _run_loader(case):
     kind = f"T{'>1' if T > 1 else '=1'},K{'>1' if K > 1 else '=1'}"
     viol = []
     sig = lambda what: f"{ID}|loader.{entry}|{what}|{kind}"  # noqa
-    if entry == "align(stack)":
+    if entry.endswith("[with_params]"):
+        # the model class with its parameters bound in advance (Model.with_params(...)) instead of keyword arguments
+        bound = cls.with_params(**kw)
+        if entry.startswith("align(stack)"):
+            outs = [loader.align(np.stack(tm) if T > 1 else tm[0], max_shifts=ms, alignment_model=bound).molecules]
+        else:
+            outs = [loader.align_multi_templates(tm, max_shifts=ms, alignment_model=bound).molecules]
+    elif entry == "align(stack)":
         outs = [loader.align(np.stack(tm) if T > 1 else tm[0], max_shifts=ms, alignment_model=cls, **kw).molecules]
     elif entry == "align_multi_templates":
         outs = [loader.align_multi_templates(tm, max_shifts=ms, alignment_model=cls, **kw).molecules]
@@ -321,7 +345,7 @@ def _run_loader(case):
             i = int(f["uid"][r])
             j, k = pairs[i]
             seen += 1
-            if T > 1 or entry != "align(stack)":
+            if T > 1 or not entry.startswith("align(stack)"):
                 lab = int(f["labels"][r])
                 if lab != j:
                     viol.append((sig("label"), f"molecule {i} planted (template {j}, rotation {k}) of T={T}, K={K}: labels={lab}"))
